@@ -160,6 +160,25 @@ def cval_application(repo: Repo) -> Application:
             cur2 = par
         bounded = any(_implies_below_len(subst_locals(fn, g), ivar) for g in conds)
         if not bounded and sq.kind == "index":
+            rng0 = _strip_copies(it)
+            # descending index loop: range(start, stop, -1) with start <= len(keys) - 1
+            if isinstance(rng0, ast.Call) and norm(rng0.func) == "range" and len(rng0.args) == 3 and sq.direction == -1:
+                from . import alg
+
+                def bleaf(e):
+                    t = norm(e).replace(" ", "")
+                    if t == f"len({KEYS})":
+                        return alg.Poly.sym("n")
+                    if t in (f"min(len({CVALS}),len({KEYS}))", f"min(len({KEYS}),len({CVALS}))"):
+                        return alg.Poly.sym("n")          # an upper bound of it: min(a, n) <= n
+                    return None
+                try:
+                    d = alg.to_poly(subst_locals(fn, rng0.args[0]), bleaf) - (alg.Poly.sym("n") - 1)
+                    if d.is_const() and d.const_value() <= 0:
+                        bounded = True
+                except alg.NotAlgebraic:
+                    pass
+        if not bounded and sq.kind == "index":
             rng = _strip_copies(it)
             if isinstance(rng, ast.Call) and len(rng.args) in (1, 2) and sq.direction == +1:
                 stop = rng.args[-1]
